@@ -24,7 +24,7 @@ func TestC19(t *testing.T) {
 	// reachable states: no canary / mid rolling update (S2), canary running / auto-paused (restart:2 > autoPause 1) / user-paused / failed (S3)
 	cmds := &w.Alpha{Kubectl: allKubectl}
 	canaryCmds := []string{"canary-pause", "canary-unpause", "canary-validate", "canary-fail"}
-	cmdsCanary := &w.Alpha{Kubectl: canaryCmds, PodDev: []string{"restart:2"}}
+	cmdsCanary := &w.Alpha{Kubectl: append(append([]string{}, canaryCmds...), "freeze-rollout", "pause-rolling-update"), PodDev: []string{"restart:2"}}
 	cmdsLater := &w.Alpha{Kubectl: []string{"canary-validate", "canary-pause"}, Templates: []string{"C"}}
 	if h.Thorough() {
 		cmdsCanary = &w.Alpha{Kubectl: allKubectl, PodDev: []string{"restart:2"}, Templates: []string{"C"}}
